@@ -111,13 +111,14 @@ struct TwinEnv : Family {
 				size_t nf = static_cast<size_t>(r.below(6));
 				std::vector<std::string> names;
 				for (size_t k = 0; k < nf; ++k) {
-					std::string nm = randName(r, 1, 10, false);
+					std::string nm = randName(r, 1, 10, r.chance(1, 2));
+					if (!names.empty() && r.chance(1, 3)) nm = tieProneSibling(names[r.below(names.size())], r);
 					bool clash = false;
 					for (auto& o : names) if (ref::nameEqualNoCase(o, nm)) clash = true;
 					if (clash) continue;
 					names.push_back(nm);
 					Line f = mkline("world", "file");
-					f.set("name", nm).set("cseed", hex64(r.next())).set("len", r.chance(1, 4) ? r.below(4) : r.below(700));
+					f.set("name", quoteToken(nm)).set("cseed", hex64(r.next())).set("len", r.chance(1, 4) ? r.below(4) : r.below(700));
 					p.world.push_back(f);
 				}
 			} else if (sc == "clm") {
@@ -207,8 +208,9 @@ struct TwinEnv : Family {
 				for (auto& l : plan.world) if (l.verb == "file") {
 					// every vol scenario of a plan packs all file lines: names must be distinct ignoring case across the whole plan
 					bool clash = false;
-					for (auto& o : ins) if (ref::nameEqualNoCase(o.name, l.get("name"))) clash = true;
-					if (!clash) ins.push_back(In{l.get("name"), prngBytes(l.u("cseed"), static_cast<size_t>(l.u("len")))});
+					std::string fileName = unquoteToken(l.get("name"));
+					for (auto& o : ins) if (ref::nameEqualNoCase(o.name, fileName)) clash = true;
+					if (!clash) ins.push_back(In{fileName, prngBytes(l.u("cseed"), static_cast<size_t>(l.u("len")))});
 				}
 				std::vector<std::string> list;
 				std::string dir = "vin" + std::to_string(oi);
